@@ -3,7 +3,10 @@ package c06
 import (
 	"fmt"
 	"math/rand"
+	"strconv"
 	"time"
+
+	"github.com/lindb/lindb/replica"
 )
 
 // Round 12: the rewind (SetConsumedSeq inside [ack, appended], what the replicators do to re-consume)
@@ -196,6 +199,29 @@ func (s *sim) caseRewindFixed(rng *rand.Rand) {
 	s.doCreate(0)
 	s.doConsume(0)
 	s.doReopen(rng)
+	// the replicator's glue: a local replicator starts on group 0 (rewind to ack+1) and replays everything
+	// unacknowledged; IgnoreMessage of the next / not the next / a not yet re-consumed index
+	for i := 0; i < 4; i++ {
+		s.doAppend(7)
+	}
+	s.doGC(rng)
+	s.replay(0, 100)
+	if h := s.gs[0]; h != nil && !s.dead {
+		a := h.AcknowledgedSeq()
+		s.doReplIgnore(0, a+2) // not the next one
+		s.doReplIgnore(0, a+1) // the next one
+		s.doReplReset(0, a+3)  // ResetReplicaIndex: consumed = a+2
+		s.doReplIgnore(0, a+3) // would be the next one, but not handed out again yet: nothing
+		s.doReplAck(0, a+4)    // above the rewound consumed position: ignored
+		s.doReplConsume(0)
+		s.doReplIgnore(0, a+3)
+		s.doReplAck(0, a+1) // below the ack: ignored
+	}
+	s.doSync()
+	s.doGC(rng)
+	s.replay(1, 100)
+	s.doReopen(rng)
+	s.replay(0, 3)
 	s.pages()
 }
 
@@ -209,7 +235,19 @@ func (s *sim) rewindRound(rng *rand.Rand, g int) {
 	if hi < lo || hi > app {
 		return
 	}
-	switch rng.Intn(3) {
+	switch rng.Intn(6) {
+	case 3: // a local replicator starts and replays some of what is unacknowledged
+		s.replay(g, rng.Intn(6))
+	case 4: // ResetReplicaIndex inside the window, then SetAckIndex / IgnoreMessage around the new position
+		s.doReplReset(g, lo+1+rng.Int63n(hi-lo+1))
+		if rng.Intn(2) == 0 {
+			s.doReplAck(g, lo+rng.Int63n(hi-lo+2))
+		} else {
+			s.doReplIgnore(g, lo+rng.Int63n(3))
+		}
+	case 5:
+		s.doReplIgnore(g, lo+rng.Int63n(3))
+		s.doReplConsume(g)
 	case 0: // sequential: rewind, then an ack somewhere in [lo, old consumed + 1]
 		m := lo + rng.Int63n(hi-lo+1)
 		s.doSetConsumed(g, m)
@@ -220,5 +258,132 @@ func (s *sim) rewindRound(rng *rand.Rand, g int) {
 	default:
 		n := lo + rng.Int63n(hi-lo+1)
 		s.doAckRewind(g, n, n+rng.Int63n(app-n+1))
+	}
+}
+
+// ---- the replicator's glue (replica/replicator.go) over the real consumer group ----
+//
+//	rreset g idx    replicator.ResetReplicaIndex(idx)            = setc g (idx-1)
+//	rstart g        what NewLocalReplicator does to the group: ResetReplicaIndex(AckIndex()+1)
+//	rack g idx      replicator.SetAckIndex(idx)                  = ack g idx
+//	rignore g idx   replicator.IgnoreMessage(idx)                = ack g idx if idx = ack+1, else nothing
+//	rconsume g      replicator.Consume() + GetMessage            = consume g
+//
+// The state-changing ones answer `ok ri=<ReplicaIndex> ai=<AckIndex> ap=<AppendIndex>`, compared with
+// Model/C06Glue.lean; the impl-side oracle checks the three indexes against the group's positions.
+
+func (s *sim) repl(g int) replica.VerifC06Repl {
+	h, ok := s.gs[g]
+	if !ok || s.dead || s.park != nil || s.wok != nil {
+		return nil
+	}
+	return replica.VerifC06Replicator(h)
+}
+
+func (s *sim) replIdx(g int, r replica.VerifC06Repl) string {
+	h := s.gs[g]
+	ri, ai, ap := r.ReplicaIndex(), r.AckIndex(), r.AppendIndex()
+	if ri != h.ConsumedSeq()+1 || ai != h.AcknowledgedSeq() || ap != s.fq.Queue().AppendedSeq()+1 {
+		s.fail("replicator-index-wrong", "group %d at consumed %d / ack %d, appended %d: ReplicaIndex %d AckIndex %d AppendIndex %d",
+			g, h.ConsumedSeq(), h.AcknowledgedSeq(), s.fq.Queue().AppendedSeq(), ri, ai, ap)
+	}
+	if pd, want := r.Pending(), s.fq.Queue().AppendedSeq()-h.ConsumedSeq(); pd != want && !(want < 0 && pd == 0) {
+		s.fail("pending-wrong", "replicator.Pending() = %d with consumed %d appended %d", pd, h.ConsumedSeq(), s.fq.Queue().AppendedSeq())
+	}
+	return fmt.Sprintf("ok ri=%d ai=%d ap=%d", ri, ai, ap)
+}
+
+func (s *sim) doReplReset(g int, idx int64) {
+	r := s.repl(g)
+	if r == nil {
+		return
+	}
+	if idx-1 < r.AckIndex() || idx > r.AppendIndex() {
+		s.reset = true
+		s.c.Branch("reset/setc-out-of-window")
+	}
+	s.op("setc", g, idx-1, fmt.Sprintf("rreset %d %d", g, idx), func() string {
+		r.ResetReplicaIndex(idx)
+		return s.replIdx(g, r)
+	})
+}
+
+func (s *sim) doReplStart(g int) {
+	r := s.repl(g)
+	if r == nil {
+		return
+	}
+	h := s.gs[g]
+	if h.AcknowledgedSeq() > s.fq.Queue().AppendedSeq() {
+		return // only after an explicit reset
+	}
+	s.op("setc", g, h.AcknowledgedSeq(), fmt.Sprintf("rstart %d", g), func() string {
+		r.ResetReplicaIndex(r.AckIndex() + 1) // replica/replicator_local.go NewLocalReplicator (fact localStartResetArgs)
+		return s.replIdx(g, r)
+	})
+}
+
+func (s *sim) doReplAck(g int, idx int64) {
+	if r := s.repl(g); r != nil {
+		s.op("ack", g, idx, fmt.Sprintf("rack %d %d", g, idx), func() string { r.SetAckIndex(idx); return s.replIdx(g, r) })
+	}
+}
+
+func (s *sim) doReplIgnore(g int, idx int64) {
+	if r := s.repl(g); r != nil {
+		s.op("rignore", g, idx, fmt.Sprintf("rignore %d %d", g, idx), func() string { r.IgnoreMessage(idx); return s.replIdx(g, r) })
+	}
+}
+
+// doReplConsume: Consume through the replicator, then GetMessage of what it handed out.
+func (s *sim) doReplConsume(g int) {
+	r := s.repl(g)
+	if r == nil {
+		return
+	}
+	h := s.gs[g]
+	if !s.paused[g] && h.ConsumedSeq()+1 > s.fq.Queue().AppendedSeq() {
+		s.c.Branch("consume-would-block(skipped)")
+		return
+	}
+	s.op("consume", g, 0, fmt.Sprintf("rconsume %d", g), func() string {
+		v := r.Consume()
+		if v >= 0 && !s.reset && !s.backReset {
+			if _, err := r.GetMessage(v); err != nil {
+				s.fail("replay-message-unreadable", "group %d (ack %d) was handed %d by replicator.Consume, GetMessage(%d) = %v (queue %d/%d)",
+					g, h.AcknowledgedSeq(), v, v, err, s.fq.Queue().AppendedSeq(), s.fq.Queue().AcknowledgedSeq())
+			}
+		}
+		return strconv.FormatInt(v, 10)
+	})
+}
+
+// oracleIgnore: IgnoreMessage(n) acknowledges n exactly when n = ack+1 and n has been handed out.
+func (s *sim) oracleIgnore(g int, n int64, bp, ap gpos) {
+	want := bp
+	if bp.a+1 == n && n <= bp.c {
+		want.a = n
+	}
+	if ap != want {
+		s.fail("ignore-message-positions", "IgnoreMessage(%d) on %v gave %v, expected %v", n, bp, ap, want)
+	}
+}
+
+// replay: the start of a local replicator on g, then everything unacknowledged is consumed again through
+// the replicator — each sequence once, in order, readable.
+func (s *sim) replay(g int, max int) {
+	h := s.gs[g]
+	if h == nil || s.dead {
+		return
+	}
+	s.doReplStart(g)
+	next := h.AcknowledgedSeq() + 1
+	for i := 0; i < max && !s.dead && !s.paused[g] && h.ConsumedSeq() < s.fq.Queue().AppendedSeq(); i++ {
+		before := h.ConsumedSeq()
+		s.doReplConsume(g)
+		if !s.reset && h.ConsumedSeq() != next && h.ConsumedSeq() != before {
+			s.fail("replay-not-consecutive", "group %d: replay from ack+1 expected %d next, consumed position is %d", g, next, h.ConsumedSeq())
+		}
+		next++
 	}
 }
